@@ -341,6 +341,11 @@ def make_policy(desc: dict[str, Any]) -> Policy:
 # the scheduler
 
 
+# "api" granularity: yield points only at call/return of the public entry points - cheap enough
+# for documents whose formatting makes millions of internal calls
+API_MODULES = {"flowmark.reformat_api", "flowmark.linewrapping.markdown_filling", "flowmark.linewrapping.text_filling", "flowmark.formats.frontmatter"}
+
+
 def _phase_of(site_name: str) -> str:
     mod = site_name.split(":", 1)[0]
     if mod.startswith("marko.") and not mod.startswith(("marko.renderer", "marko.md_renderer")):
@@ -437,7 +442,10 @@ class Scheduler:
                     if code.co_name == "<module>" or fn.endswith(".pyi"):
                         break
                     rel = fn[len(r) :].lstrip(os.sep)
-                    name = rel[:-3].replace(os.sep, ".") + ":" + getattr(code, "co_qualname", code.co_name)
+                    mod = rel[:-3].replace(os.sep, ".")
+                    if self.granularity == "api" and mod not in API_MODULES:
+                        break  # sparse mode: only the entry points are yield points
+                    name = mod + ":" + getattr(code, "co_qualname", code.co_name)
                     sid = self._intern(name)
                     break
             self.code_sites[code] = sid
@@ -475,6 +483,8 @@ class Scheduler:
             sched.yield_point(tid, sid, 0)
             if gran == "call":
                 return None
+            if gran == "api":
+                return local  # call and return of the few entry-point functions
             if gran == "line":
                 name = sched.site_names[sid - 1]
                 if not any(("." + d + ".") in ("." + name) for d in sched.fine_dirs):
